@@ -4,8 +4,10 @@ import (
 	"context"
 	"fmt"
 	"net"
+	"os"
 	"strings"
 	"sync"
+	"sync/atomic"
 	"testing"
 	"time"
 
@@ -26,6 +28,7 @@ type c20Config struct {
 	Whoami    bool   `json:"whoami"`
 	RefuseANY bool   `json:"refuse_any"`
 	MaxAns    int    `json:"max_answers"`
+	MaxAns2   int    `json:"max_answers_second_listener,omitempty"` // > 0: a second listener on 127.0.0.2 with its own setting
 }
 
 type c20Exchange struct {
@@ -35,6 +38,9 @@ type c20Exchange struct {
 	Buf  int    `json:"buf"` // 0 = no OPT
 	Raw  bool   `json:"raw_header_only,omitempty"`
 	ECS  bool   `json:"ecs,omitempty"`
+	// Class: 0 means IN
+	Class  uint16 `json:"class,omitempty"`
+	Second bool   `json:"second_listener,omitempty"`
 }
 
 type c20Case struct {
@@ -64,19 +70,54 @@ func c20Setup() {
 	}
 }
 
+var c20PortCounter uint32
+
+// freePort picks a server port below the kernel's ephemeral range (32768..):
+// the clients of 16 shards open hundreds of TCP connections per second, and a
+// listener cannot bind a port that an outgoing connection (even one in
+// TIME_WAIT) occupies, so ports taken from the ephemeral range collide.
 func freePort() (int, error) {
-	l, err := net.ListenUDP("udp", &net.UDPAddr{IP: net.ParseIP("127.0.0.1")})
-	if err != nil {
-		return 0, err
+	var lastErr error
+	for try := 0; try < 300; try++ {
+		n := atomic.AddUint32(&c20PortCounter, 1)
+		port := 12000 + int((uint32(kit.Shard())*1237+uint32(os.Getpid())*31+n*7)%20000)
+		ok := true
+		for _, ip := range []string{"127.0.0.1", "127.0.0.2"} {
+			t, err := net.Listen("tcp", fmt.Sprintf("%s:%d", ip, port))
+			if err != nil {
+				ok, lastErr = false, err
+				break
+			}
+			t.Close()
+			u, err := net.ListenUDP("udp", &net.UDPAddr{IP: net.ParseIP(ip), Port: port})
+			if err != nil {
+				ok, lastErr = false, err
+				break
+			}
+			u.Close()
+		}
+		if ok {
+			return port, nil
+		}
 	}
-	port := l.LocalAddr().(*net.UDPAddr).Port
-	l.Close()
-	t, err := net.Listen("tcp", fmt.Sprintf("127.0.0.1:%d", port))
+	return 0, lastErr
+}
+
+// c20Exchange is one query over a fresh socket.  TCP connections are closed with
+// linger 0 (RST, no TIME_WAIT): tens of thousands of client sockets in TIME_WAIT
+// would exhaust the ephemeral port range of the machine and turn into
+// transport errors that have nothing to do with the server.
+func c20ExchangeMsg(c *dns.Client, req *dns.Msg, addr string) (*dns.Msg, error) {
+	co, err := c.Dial(addr)
 	if err != nil {
-		return 0, err
+		return nil, err
 	}
-	t.Close()
-	return port, nil
+	defer co.Close()
+	if tc, ok := co.Conn.(*net.TCPConn); ok {
+		_ = tc.SetLinger(0)
+	}
+	r, _, err := c.ExchangeWithConn(req, co)
+	return r, err
 }
 
 func c20Start(cfg c20Config, b kit.Backend) (*fbserver.Server, int, error) {
@@ -89,6 +130,9 @@ func c20Start(cfg c20Config, b kit.Backend) (*fbserver.Server, int, error) {
 		}
 		conf := fbserver.NewServerConfig()
 		_ = conf.IPAns.Set(fmt.Sprintf("127.0.0.1,%d", cfg.MaxAns))
+		if cfg.MaxAns2 > 0 {
+			_ = conf.IPAns.Set(fmt.Sprintf("127.0.0.2,%d", cfg.MaxAns2))
+		}
 		conf.Port = port
 		conf.TCP = true
 		conf.ReadTimeout = 2 * time.Second
@@ -108,7 +152,11 @@ func c20Start(cfg c20Config, b kit.Backend) (*fbserver.Server, int, error) {
 			continue
 		}
 		ok := true
-		for i := 0; i < 2; i++ {
+		nl := 2
+		if cfg.MaxAns2 > 0 {
+			nl = 4
+		}
+		for i := 0; i < nl; i++ {
 			select {
 			case <-up:
 			case <-time.After(5 * time.Second):
@@ -148,6 +196,11 @@ func c20Check(t kit.Fataler, cfg c20Config, port int, ref *dnsserver.FBDNSDB, ex
 		kit.Fail(t, "C20", key, cs, "config %+v exchange %+v: "+format, append([]interface{}{cfg, ex}, a...)...)
 	}
 	addr := fmt.Sprintf("127.0.0.1:%d", port)
+	maxAns := cfg.MaxAns
+	if ex.Second && cfg.MaxAns2 > 0 {
+		addr = fmt.Sprintf("127.0.0.2:%d", port)
+		maxAns = cfg.MaxAns2
+	}
 	if ex.Raw {
 		// a header-only datagram (QDCOUNT 0): must be answered with a failure, and the server must survive
 		conn, err := net.DialTimeout("udp", addr, 2*time.Second)
@@ -178,6 +231,9 @@ func c20Check(t kit.Fataler, cfg c20Config, port int, ref *dnsserver.FBDNSDB, ex
 	req := new(dns.Msg)
 	req.SetQuestion(ex.Name, ex.Type)
 	req.RecursionDesired = false
+	if ex.Class != 0 {
+		req.Question[0].Qclass = ex.Class
+	}
 	client := &dns.Client{Net: "udp", Timeout: 3 * time.Second}
 	if ex.TCP {
 		client.Net = "tcp"
@@ -193,7 +249,7 @@ func c20Check(t kit.Fataler, cfg c20Config, port int, ref *dnsserver.FBDNSDB, ex
 	var got *dns.Msg
 	var err error
 	for attempt := 0; attempt < 3; attempt++ {
-		got, _, err = client.Exchange(req.Copy(), addr)
+		got, err = c20ExchangeMsg(client, req.Copy(), addr)
 		if err == nil {
 			break
 		}
@@ -219,6 +275,9 @@ func c20Check(t kit.Fataler, cfg c20Config, port int, ref *dnsserver.FBDNSDB, ex
 		}
 		if record {
 			kit.Class("any-refused")
+			if ex.Class != 0 && ex.Class != 1 {
+				kit.Class("any-refused:class-not-IN")
+			}
 		}
 	case isWhoami:
 		if got.Rcode != 0 || !got.Authoritative {
@@ -249,7 +308,7 @@ func c20Check(t kit.Fataler, cfg c20Config, port int, ref *dnsserver.FBDNSDB, ex
 	default:
 		// same answer as the bare database handler with this listener's max-answer setting
 		w := &kit.Writer{Remote: "127.0.0.1", TCP: ex.TCP}
-		_, _ = ref.ServeDNS(dnsserver.WithMaxAnswer(context.Background(), cfg.MaxAns), w, req.Copy())
+		_, _ = ref.ServeDNS(dnsserver.WithMaxAnswer(context.Background(), maxAns), w, req.Copy())
 		var want *dns.Msg
 		if len(w.Msgs) > 0 {
 			buf, perr := w.Msgs[0].Pack()
@@ -270,8 +329,11 @@ func c20Check(t kit.Fataler, cfg c20Config, port int, ref *dnsserver.FBDNSDB, ex
 				na++
 			}
 		}
-		if ex.Type == dns.TypeA && na > cfg.MaxAns {
-			fail("max-answer", "%d A records with max answers %d", na, cfg.MaxAns)
+		if ex.Type == dns.TypeA && na > maxAns {
+			fail("max-answer", "%d A records with max answers %d", na, maxAns)
+		}
+		if record && ex.Second && cfg.MaxAns2 > 0 && cfg.MaxAns2 != cfg.MaxAns {
+			kit.Class("second-listener-with-other-max-answer")
 		}
 		if !ex.TCP {
 			limit := 512
@@ -286,7 +348,7 @@ func c20Check(t kit.Fataler, cfg c20Config, port int, ref *dnsserver.FBDNSDB, ex
 			}
 			// complete answer over TCP
 			wt := &kit.Writer{Remote: "127.0.0.1", TCP: true}
-			_, _ = ref.ServeDNS(dnsserver.WithMaxAnswer(context.Background(), cfg.MaxAns), wt, req.Copy())
+			_, _ = ref.ServeDNS(dnsserver.WithMaxAnswer(context.Background(), maxAns), wt, req.Copy())
 			if len(wt.Msgs) > 0 {
 				fm := wt.Msgs[0].Copy()
 				fm.Compress = true
@@ -299,7 +361,7 @@ func c20Check(t kit.Fataler, cfg c20Config, port int, ref *dnsserver.FBDNSDB, ex
 				}
 				if got.Truncated {
 					tc := &dns.Client{Net: "tcp", Timeout: 3 * time.Second}
-					overTCP, _, terr := tc.Exchange(req.Copy(), addr)
+					overTCP, terr := c20ExchangeMsg(tc, req.Copy(), addr)
 					if terr != nil || overTCP.Truncated || c20Render(overTCP) != c20Render(mustRoundTrip(wt.Msgs[0])) {
 						fail("tcp-retry-incomplete", "after a truncated UDP answer the TCP answer is not the complete one: %v %s", terr, c20Render(overTCP))
 					}
@@ -342,6 +404,8 @@ func genC20Exchange(t *rapid.T) c20Exchange {
 	ex.Buf = rapid.SampledFrom([]int{0, 0, 512, 1232, 4096}).Draw(t, "buf")
 	ex.Raw = rapid.IntRange(0, 24).Draw(t, "raw") == 0
 	ex.ECS = ex.Buf > 0 && rapid.Bool().Draw(t, "ecs")
+	ex.Class = rapid.SampledFrom([]uint16{0, 0, 0, 0, 0, 0, 3, 4, 255, 254, 2}).Draw(t, "class")
+	ex.Second = rapid.Bool().Draw(t, "second-listener")
 	return ex
 }
 
@@ -367,6 +431,48 @@ func c20Run(t kit.Fataler, cfg c20Config, exs []c20Exchange, record bool) {
 	for _, ex := range exs {
 		c20Check(t, cfg, port, ref, ex, record)
 	}
+	// one socket / connection, several queries in a row (some of them REFUSED): the k-th
+	// reply read answers the k-th query, and nothing else arrives afterwards
+	for _, network := range []string{"udp", "tcp"} {
+		conn, err := dns.DialTimeout(network, fmt.Sprintf("127.0.0.1:%d", port), 2*time.Second)
+		if err != nil {
+			kit.Fail(t, "C20", "transport-error", c20Case{Config: cfg}, "dial %s: %v", network, err)
+			continue
+		}
+		if tc, ok := conn.Conn.(*net.TCPConn); ok {
+			_ = tc.SetLinger(0)
+		}
+		seq := []string{"other.org.", "www.example.com.", "nope.example.com.", "refused.invalid.", "txt.example.com.", "other.org.", "example.com."}
+		for i, name := range seq {
+			req := new(dns.Msg)
+			req.SetQuestion(name, []uint16{dns.TypeA, dns.TypeTXT, dns.TypeANY}[i%3])
+			req.Id = uint16(4000 + i)
+			_ = conn.SetDeadline(time.Now().Add(3 * time.Second))
+			if err := conn.WriteMsg(req); err != nil {
+				kit.Fail(t, "C20", "transport-error", c20Case{Config: cfg}, "write on a reused %s connection: %v", network, err)
+				break
+			}
+			r, err := conn.ReadMsg()
+			if err != nil {
+				kit.Fail(t, "C20", "no-response-over-transport", c20Case{Config: cfg, Exchange: c20Exchange{Name: name, TCP: network == "tcp"}}, "query %d (%s) on a reused %s connection: %v", i, name, network, err)
+				break
+			}
+			if r.Id != req.Id || len(r.Question) != 1 || r.Question[0].Name != name {
+				kit.Fail(t, "C20", "reply-does-not-match-query", c20Case{Config: cfg, Exchange: c20Exchange{Name: name, TCP: network == "tcp"}, Got: c20Render(r)},
+					"query %d on a reused %s connection asked %s with id %d, the reply read is %s", i, network, name, req.Id, c20Render(r))
+				break
+			}
+		}
+		_ = conn.SetDeadline(time.Now().Add(150 * time.Millisecond))
+		if r, err := conn.ReadMsg(); err == nil {
+			kit.Fail(t, "C20", "extra-response", c20Case{Config: cfg, Exchange: c20Exchange{Name: "(sequence on one connection)", TCP: network == "tcp"}, Got: c20Render(r)},
+				"after %d queries and %d replies on one %s connection another message arrived: %s", len(seq), len(seq), network, c20Render(r))
+		}
+		conn.Close()
+		if record {
+			kit.Class("connection-reuse:" + network)
+		}
+	}
 	// concurrent phase: many clients at once, each asking for its own name; every reply
 	// must be about the name that was asked (ANY refusal synthesises a record per request)
 	var wg sync.WaitGroup
@@ -382,7 +488,7 @@ func c20Run(t kit.Fataler, cfg c20Config, exs []c20Exchange, record bool) {
 				name := fmt.Sprintf("c%d-%d.%s", g, i, []string{"example.com.", "wild.example.com.", "other.org."}[i%3])
 				req := new(dns.Msg)
 				req.SetQuestion(name, []uint16{dns.TypeANY, dns.TypeA}[i%2])
-				r, _, err := c.Exchange(req, addr)
+				r, err := c20ExchangeMsg(c, req, addr)
 				if err != nil {
 					continue
 				}
@@ -431,6 +537,7 @@ func TestC20(t *testing.T) {
 			Whoami:    rapid.Bool().Draw(t, "whoami"),
 			RefuseANY: rapid.Bool().Draw(t, "refuseany"),
 			MaxAns:    rapid.SampledFrom([]int{1, 2, 8}).Draw(t, "maxans"),
+			MaxAns2:   rapid.SampledFrom([]int{0, 1, 3, 8}).Draw(t, "maxans2"),
 		}
 		n := rapid.IntRange(40, 120).Draw(t, "nex")
 		exs := make([]c20Exchange, n)
